@@ -324,7 +324,7 @@ def replay_trace(env: Env, start_ops: list, log: list, result_ops: list) -> bool
         name, left, right, new = log[idx]
         for i in range(len(cur) - 1):
             if (cur[i] is left or env.key(cur[i]) == env.key(left)) and (cur[i + 1] is right or env.key(cur[i + 1]) == env.key(right)):
-                nxt = cur[:i] + list(new) + cur[i + 2 :]
+                nxt = cur[:i] + IdentityRule().apply(list(new)) + cur[i + 2 :]
                 if any(isinstance(o, HomothetyOperator) for o in new):
                     nxt = HomothetyRule().apply(nxt)
                 if search(nxt, idx + 1):
